@@ -340,7 +340,11 @@ void Future<void>::Private::FastSignal::set()
 void Future<void>::Private::FastSignal::reset()
 {
   if (Atomic::swap(_state, 0) == 1)
+  {
     _signal.reset();
+    if (Atomic::load(_state)) // a set() that completed after the swap above must not lose its wake-up to this reset
+      _signal.set();
+  }
 }
 
 bool Future<void>::Private::FastSignal::wait()
